@@ -28,7 +28,12 @@ def run(tier, replay):
         verdict = vlib.Verdict("C04")
         tv = C.judge("C04", "Trace_Conn_c04", trace, verdict, signature, heap="12g")
         n = C.count(trace)
+        # wire: the real binary on both loopback address families; every connection of a short history must be answered
+        import wire_common as W
+        hist = ["valid", "bad", "internal", "valid", "bad", "bad", "internal", "valid"]
+        wire_conns = W.run_fixed_histories(sc, [{"n": 2, "hist": hist}, {"n": 2, "hist": hist, "ip6": True}, {"n": 1, "hist": hist[:4], "ip6": True}], verdict, "C04")
         ev["coverage"] = {
+            "wire_connections": wire_conns,
             "evaluations": n["End"], "distinct_nontrivial": total,
             "states": mc.distinct + sum(g.distinct for g in gens), "transitions": mc.generated + sum(g.generated for g in gens),
             "traces_validated_against_impl": n["End"], "transport_write_events": n["Write"],
